@@ -9,6 +9,8 @@ or above the start offset that the response(s) contain completely, in order, eac
 -/
 import KafkaVerif.Base.Proto
 import KafkaVerif.Model.Batch
+import KafkaVerif.Model.ReaderLoop
+import KafkaVerif.Model.ReaderFront
 import KafkaVerif.Spec.Layout
 
 namespace KV.OracleC02
@@ -81,6 +83,65 @@ def fetchHolds (items : List Item) (cut o hwm : Int) (i : Impl) : Bool :=
         | it :: _ => !(o ≤ it.last && (cut < 0 || it.size ≤ cut.toNat)) || o ≤ i.off
         | [] => true)
 
+/-! ### op `reader` -/
+
+def parseFault (s : String) : Option (Nat × Fault) :=
+  match s.splitOn ":" with
+  | [i, k] => do
+    let idx ← i.toNat?
+    if k.startsWith "cut" then pure (idx, .cut (← (k.drop 3).toString.toNat?))
+    else if k.startsWith "err" then pure (idx, .err (← (k.drop 3).toString.toNat?))
+    else if k == "hang" then pure (idx, .hang)
+    else if k == "move" then pure (idx, .move)
+    else none
+  | _ => none
+
+def parsePair (sep : String) (s : String) : Option (Nat × Int) :=
+  match s.splitOn sep with
+  | [a, b] => do pure ((← a.toNat?), (← b.toInt?))
+  | _ => none
+
+def showJournal (j : List (Nat × Int)) : String :=
+  if j.isEmpty then "-" else ",".intercalate (j.map fun (c, o) => s!"{c}:{o}")
+
+/-- the delivered stream as text: entries `offset:digest`, `|` at each SetOffset -/
+def showStream (segs : List (List Rec)) : String :=
+  let parts := segs.map fun d => d.map fun (o, t) => s!"{o}:{t}"
+  let flat := (parts.intersperse ["|"]).flatten
+  if flat.isEmpty then "-" else ",".intercalate flat
+
+def parseStream (s : String) : Option (List (List Rec)) :=
+  if s == "-" then some [[]] else
+  let rec go (es : List String) (cur : List Rec) (acc : List (List Rec)) : Option (List (List Rec)) :=
+    match es with
+    | [] => some (acc ++ [cur])
+    | e :: rest =>
+      if e == "|" then go rest [] (acc ++ [cur])
+      else match e.splitOn ":" with
+        | [o, t] => do go rest (cur ++ [((← o.toInt?), (← t.toNat?))]) acc
+        | _ => none
+  go (s.splitOn ",") [] []
+
+def strictlyIncreasing : List Rec → Bool
+  | a :: b :: rest => a.1 < b.1 && strictlyIncreasing (b :: rest)
+  | _ => true
+
+/-- monitor of a Reader run: segment i (between SetOffset calls) must be, in order and without repetition, stored
+records at or above its position `p_i`, starting with the first stored one at or above `p_i`, gap-free with respect
+to the records that are still stored at the end (log-start truncation may delete records before they are read);
+non-final segments have exactly the scripted length, the final one reaches the log end -/
+def readerHolds (all final : List Rec) (positions : List Int) (lens : List Nat) (segs : List (List Rec)) (out : String) : Bool :=
+  out == "done" && segs.length == positions.length &&
+  (List.range segs.length).all fun i =>
+    let seg := segs.getD i []
+    let p := positions.getD i 0
+    let isLast := i + 1 == segs.length
+    let stored := all.filter (fun r => p ≤ r.1)
+    strictlyIncreasing seg && seg.all (fun r => stored.contains r) &&
+    -- no surviving record is skipped: up to the last delivered offset (all of them for the final segment)
+    (final.filter (fun r => p ≤ r.1 && (isLast || (match seg.getLast? with | some l => r.1 ≤ l.1 | none => false)))).all (fun r => seg.contains r) &&
+    (isLast || seg.length == lens.getD i 0)
+
 def variantOf (op : String) : Variant := if op.startsWith "legacy-" then .legacy else .fixed
 
 def step (line : String) : String :=
@@ -105,6 +166,49 @@ def step (line : String) : String :=
           let expected := (allRecords items).filter (fun r => o ≤ r.1)
           answer (showResult d off out) (i.d == expected && i.out == "done" && i.off == hwm)
         | _, _, _, _ => "bad-op"
+      else "bad-op"
+    | some op, none =>
+      if op == "reader" || op == "legacy-reader" then
+        let v := variantOf op
+        let iw := words impl
+        match fieldInt ws "v", field ws "start", fieldInt ws "hwm", (field ws "L").bind parseLayout,
+              (field ws "budgets").bind (fun s => (s.splitOn ",").mapM (·.toNat?)),
+              (field ws "faults").bind (fun s => (splitList s ";").mapM parseFault),
+              (field ws "firsts").bind (fun s => (splitList s ",").mapM (·.toInt?)),
+              (field ws "sets").bind (fun s => (splitList s ";").mapM (parsePair "@")),
+              (field iw "d").bind parseStream, field iw "j", field iw "out", field iw "close" with
+        | some ver, some start, some hwm, some items, some budgets, some faults, some firsts, some sets,
+          some segs, some ij, some iout, some iclose =>
+          let trunc := match field ws "trunc" with
+            | some t => (parsePair ":" t).map fun (a, b) => (a, b.toNat)
+            | none => none
+          let withFirst := items.zip firsts
+          let logFirst := (firsts.head?).getD hwm
+          let startOff : Int := if start == "first" then -1 else if start == "last" then -2 else (start.toInt?).getD 0
+          let all := allRecords items
+          let final := match trunc with
+            | some (_, tn) => allRecords (items.drop tn)
+            | none => all
+          let startPos : Int := if start == "first" then logFirst else if start == "last" then hwm
+            else if startOff < logFirst then logFirst else startOff
+          let positions := startPos :: sets.map (·.2)
+          let lens := (sets.zip (0 :: sets.map (·.1))).map fun (a, b) => a.1 - b
+          let holds := readerHolds all final positions lens segs iout && iclose == "ok"
+          if sets.isEmpty then
+            let br : RBroker := { ver := ver.toNat, items := withFirst, hwm := hwm, budgets := budgets, faults := faults,
+                                  trunc := trunc, orig := withFirst }
+            let fuel := 40 * (all.length + 5) + 200
+            let (s, out) := simulate v fuel { rl := { offset := startOff }, br := br }
+            answer s!"d={showStream [s.rl.out]} j={showJournal s.journal} out={out} close=ok" holds
+          else
+            -- SetOffset scripts: the delivered stream follows from the front model (the first message accepted after
+            -- SetOffset(o) is the first stored record at or above o, then the log in order); the journal of the
+            -- cancelled fetchers' read-ahead depends on the queue capacity and is not modelled
+            let segsM := (List.range positions.length).map fun i =>
+              let stored := all.filter (fun r => positions.getD i 0 ≤ r.1)
+              if i + 1 == positions.length then stored else stored.take (lens.getD i 0)
+            answer s!"d={showStream segsM} j={ij} out=done close=ok" holds
+        | _, _, _, _, _, _, _, _, _, _, _, _ => "bad-op"
       else "bad-op"
     | _, _ => "bad-op"
   | _ => "bad-op"
